@@ -146,11 +146,35 @@ func runImport(t *testing.T, rc *RunCtx) {
 	// Prior history through the real signer.
 	own := map[string]Watermark{}
 	inst := openDirect(t, rc, s, pop, dir)
+	legacyHistory := ch.Pick(3, 0) == 2
 	for k := 0; k < nKeys; k++ {
 		kn := pop.Accts[k].KName
 		own[kn] = NoWatermark
 		if ch.Pick(4, 0) == 0 {
 			continue // this key has no history in the database
+		}
+		if legacyHistory && ch.Pick(2, 0) == 1 {
+			// This key's records were written by an older release (gob encoding) and not touched since.
+			st := inst.Rules.VerifStore()
+			src := int64(ch.Pick(20, 0))
+			tgt := src + 1 + int64(ch.Pick(20, 0))
+			slot := int64(ch.Pick(40, 0))
+			w := own[kn]
+			if ch.Pick(3, 0) > 0 {
+				if err := st.Store(context.Background(), storeKey(pop.Accts[k].PubKey, 2), gobBytes(legacyAtt{src, tgt})); err != nil {
+					t.Fatalf("store: %v", err)
+				}
+				w.Src, w.Tgt = src, tgt
+			}
+			if ch.Pick(3, 0) > 0 {
+				if err := st.Store(context.Background(), storeKey(pop.Accts[k].PubKey, 3), gobBytes(legacyProp{slot})); err != nil {
+					t.Fatalf("store: %v", err)
+				}
+				w.Slot = slot
+			}
+			own[kn] = w
+			rc.Stats.Inc("keys_with_old_format_history", 1)
+			continue
 		}
 		if ch.Pick(3, 0) > 0 {
 			src := uint64(ch.Pick(20, 0))
